@@ -10,6 +10,8 @@ set_option maxHeartbeats 16000000 in
 theorem InvT.pres_d8 {cfg : Cfg} {s s' : State} {l : Label} (hB : InvB s) (hC : InvC s) (hD : InvD cfg s)
     (hE : InvE cfg s) (hI : InvT cfg s) (hl : ∀ n, l ≠ .delay n) (hg : l.grpD = 8)
     (h : step cfg s l = some s') : InvT cfg s' := by
+  have hlc : ∀ t : TS, t.live = true → t = .running ∨ t = .waitingFlag ∨ t.isStopping = true := by
+    intro t; cases t <;> simp [TS.live, TS.isStopping]
   have hb2 := hB.subOrch
   have hb3 := hB.wkRoot
   have hb4 := hB.wkSub
